@@ -41,6 +41,7 @@ pub static DEF: PropertyDef = PropertyDef {
     timeout_s: 30,
     hang_class: None,
     sub_builds: &[],
+    stack_mb: 64,
 };
 
 pub fn c02_profile() -> GenProfile {
